@@ -179,12 +179,19 @@ func (br *blockReader) getType() byte {
 func newBlockReader(block []byte, headerOff uint32, tableBlockSize uint32, hashSize int) (*blockReader, error) {
 
 	fullBlockSize := tableBlockSize
+	if len(block) < int(headerOff)+4 {
+		return nil, fmtError
+	}
 	typ := block[headerOff]
 	if !isBlockType(typ) {
 		return nil, fmt.Errorf("reftable: unknown block type %c", typ)
 	}
 
 	sz := getU24(block[headerOff+1:])
+	if sz < headerOff+4+2 {
+		// no room for the block header and the restart count.
+		return nil, fmtError
+	}
 
 	if typ == blockTypeLog {
 		decompress := make([]byte, 0, sz)
@@ -224,10 +231,16 @@ func newBlockReader(block []byte, headerOff uint32, tableBlockSize uint32, hashS
 		// the caller must also handle zlib (de)compression.
 		fullBlockSize = sz
 	}
+	if int(sz) > len(block) {
+		return nil, fmtError
+	}
 	block = block[:sz]
 
 	restartCount := binary.BigEndian.Uint16(block[len(block)-2:])
 	restartStart := len(block) - 2 - 3*int(restartCount)
+	if restartStart < int(headerOff)+4 {
+		return nil, fmtError
+	}
 	restartBytes := block[restartStart:]
 	block = block[:restartStart]
 
